@@ -36,6 +36,7 @@ def check(ctx, tier):
     viewrules.empty_row_rule(ctx, tk, "C06.f")
     viewrules.col_slice_model(ctx, tk, "C06.f")
     viewrules.int_column_model(ctx, tk, "C06.f")
+    viewrules.scalar_column_is_python_int(ctx, tk, "C06.f")
     alias_exposure(ctx, tk)
     materialisation_step(ctx, tk, coh)
     from .. import hazards as _hz, scopes as _sc
